@@ -229,6 +229,12 @@ VARIABLES
     stalls,         \* number of session-timeout expiries so far
     hist            \* client-side schedule of a download: sequence of "r1" / "r2" / ... / "stall"
 
+\* Several requests on one multiplexed session (HTTP/2, HTTP/3): every request is served as if it were alone - a request
+\* that was rejected, failed or completed leaves the session able to serve the next one.  (An HTTP/1.1 session ends with a
+\* rejected request: Connection: close; a ping session is one request by design: the handler answers and closes gracefully.)
+\* The harness replays pairs of the vectors below on one connection against this.
+SessionExpect(host, proto, reqs, cfg, originUp) == [i \in 1..Len(reqs) |-> Expect(host, proto, reqs[i], cfg, originUp)]
+
 vars == << vec, phase, channel, out, dlTotal, remaining, buffered, delivered, dlEof, ulLeft, ulRead, dialled,
            originRx, relayed, authConsulted, policyConsulted, stalls, hist >>
 
